@@ -43,6 +43,12 @@ pub open spec fn dummy_ok(g: &GeneratorState) -> bool {
     let v = g.compiler_state.var("DUMMY"@);
     g.compiler_state.declared("DUMMY"@) && v.var_type == VariableType::Char && v.memory == VariableMemory::Zeropage && v.size < 0x100
 }
+// what is still assumed of DUMMY (A-dummy): when it is a zero-page symbol, it is a char
+pub open spec fn dummy_shape(g: &GeneratorState) -> bool {
+    let v = g.compiler_state.var("DUMMY"@);
+    (g.compiler_state.declared("DUMMY"@) && v.memory == VariableMemory::Zeropage) ==> (v.var_type == VariableType::Char && v.size < 0x100)
+}
+pub open spec fn needs_dummy(cycles: i32) -> bool { cycles == 3 || cycles == 5 || cycles == 9 || cycles == 10 }
 pub proof fn lemma_total_push(s: Seq<AsmLine>, l: AsmLine)
     ensures total_cycles(s.push(l)) == total_cycles(s) + (if l is Instruction { real_cycles(inst(l)) } else { 1000 })
 { assert(s.push(l).drop_last() =~= s); }
@@ -75,16 +81,17 @@ def build(repo):
     cuts.append(cs)
     cs.sub(r"\"DUMMY\"\.into\(\)", '"DUMMY".to_string()', "R3-into (`\"lit\".into()` for String is to_string)", expect=(0, 8))
     cs.set_header("""fn generate_csleep_statement(&mut self, cycles: i32, pos: usize) -> (res: Result<(), Error>)
-        requires old(self).current_function is Some, dummy_ok(old(self)),
+        requires old(self).current_function is Some, dummy_shape(old(self)),
         ensures
-            (res is Ok) == (2 <= cycles <= 10), //@ C18:csleep-domain
+            // accepted for 2..10; the counts that use DUMMY need it to be a zero-page cell (their cycle counts are those of the zero-page forms)
+            (res is Ok) == (2 <= cycles <= 10 && (needs_dummy(cycles) ==> dummy_ok(old(self)))), //@ C18:csleep-domain
             extends(old(self).out.code@, final(self).out.code@), //@ C18:csleep-frame
             res is Err ==> final(self).out.code@ == old(self).out.code@, //@ C18:csleep-err-emits-nothing
             res is Ok ==> total_cycles(added(old(self).out.code@, final(self).out.code@)) == cycles, //@ C18:csleep-cycles
             res is Ok ==> harmless(added(old(self).out.code@, final(self).out.code@)), //@ C18:csleep-pure
             res is Ok ==> all_protected_insts(added(old(self).out.code@, final(self).out.code@)), //@ C18:csleep-protected
             res is Ok ==> final(self).flags == FlagsState::Unknown, //@ C18,C01:csleep-flags
-            final(self).protected == false, //@ C18:csleep-unprotects-after
+            final(self).protected == false || (res is Err && final(self).protected == old(self).protected), //@ C18:csleep-unprotects-after
             final(self).current_function == old(self).current_function && final(self).compiler_state == old(self).compiler_state,
 """, expect_sig="fn generate_csleep_statement(&mut self, cycles: i32, pos: usize) -> Result<(), Error>")
     cs.body_start("""
@@ -128,6 +135,8 @@ def build(repo):
             (res is Ok && (expr is X || expr is Y)) ==> final(self).flags == FlagsState::Unknown, //@ C01,C18:register-transfer-forgets-flags
             // a store to memory: a belief that N/Z describe a memory cell may be about the cell just overwritten
             (res is Ok && !load && !(expr is X || expr is Y)) ==> (final(self).flags is A || final(self).flags is X || final(self).flags is Y || final(self).flags is Unknown), //@ C01,C18:store-to-memory-drops-memory-belief
+            // a value is loaded, a place is stored to: nothing is emitted for `store(5)`, `store(array)`, `load(void call)`
+            res is Ok ==> !(expr is Nothing) && !(expr is Label) && (!load ==> !(expr is Immediate) && !(expr is A)), //@ C18,C13:loadstore-operand-is-a-value-or-a-place
             res is Err ==> final(self).out.code@ == old(self).out.code@,
 """, expect_sig="fn generate_load_store_statement( &mut self, expr: &ExprType, pos: usize, load: bool, ) -> Result<(), Error>")
     ls.body_start("        let ghost c0 = self.out.code@;\n        proof { reveal_strlit(\"\"); assert(added(c0, c0) =~= Seq::<AsmLine>::empty()); }")
@@ -147,6 +156,8 @@ def build(repo):
             // a strobe on an ordinary (not split-port) constant pointer writes to the named address itself
             (res is Ok && (match *expr { Expr::Identifier(name, sub) => *sub is Nothing && old(self).compiler_state.var(name@).var_const && port(old(self), old(self).compiler_state.var(name@), AsmMnemonic::STA) == 0, _ => false }))
                 ==> inst(final(self).out.code@[old(self).out.code@.len() as int]).dasm_operand@ == expr->Identifier_0@, //@ C18:strobe-address
+            // the cell strobed is overwritten: a belief that N/Z describe a memory cell may be about it
+            res is Ok ==> (final(self).flags is A || final(self).flags is X || final(self).flags is Y || final(self).flags is Unknown), //@ C01,C18:strobe-drops-memory-belief
             // a subscript is honoured (a constant one designates the element) or rejected, never ignored
             (res is Ok && expr is Identifier) ==> (*expr->Identifier_1 is Nothing || *expr->Identifier_1 is Integer), //@ C18,C01:strobe-subscript-constant-or-rejected
             (res is Ok && (match *expr { Expr::Identifier(name, sub) => *sub is Integer && sub->Integer_0 > 0 && port(old(self), old(self).compiler_state.var(name@), AsmMnemonic::STA) == 0, _ => false }))
@@ -159,7 +170,7 @@ def build(repo):
         # the lookup helper of generate_statements.rs (a failed lookup is an error, not a panic); stub with the meaning of the R6 shim's get_variable
         parts.append("""    #[verifier::external_body]
     fn variable_or_error(&self, name: &str, pos: usize) -> (r: Result<&'a Variable, Error>)
-        ensures r is Ok ==> *r->Ok_0 == self.compiler_state.var(name@),
+        ensures (r is Ok) == self.compiler_state.declared(name@), r is Ok ==> *r->Ok_0 == self.compiler_state.var(name@),
     { unimplemented!() }
 """)
     # ---- asm statement
